@@ -219,3 +219,38 @@ Proof.
     rewrite (write_nodes_in _ h a b ND Hin), (write_nodes_in _ h' a b ND Hin). split; [reflexivity|]. exists b. auto.
   - intros a Ha. split; apply write_nodes_other; exact Ha.
 Qed.
+
+(* every single-bit flip of a stored header field or of the stored ABI (and the neighbouring ABI values) is refused with
+   EINVAL, for every address and length: a flipped value differs from the expected one *)
+Lemma lxor_pow2_neq v k : N.lxor v (2 ^ k) <> v.
+Proof.
+  intro H. assert (E : N.lxor v (N.lxor v (2 ^ k)) = 0) by (rewrite H; apply N.lxor_nilpotent).
+  rewrite <- N.lxor_assoc, N.lxor_nilpotent, N.lxor_0_l in E.
+  pose proof (N.pow_nonzero 2 k ltac:(discriminate)). contradiction.
+Qed.
+Lemma hw_corrupted_abis_refused addr len :
+  forallb (fun a => is_einval (adopt_check 0 (write_header addr len) addr len (Some addr) a)) corrupted_abis = true.
+Proof.
+  apply forallb_forall. intros a Ha.
+  assert (Hne : a <> HWLOC_TOPOLOGY_ABI).
+  { unfold corrupted_abis in Ha. apply in_app_or in Ha. destruct Ha as [Ha|Ha].
+    - unfold flips in Ha. apply in_map_iff in Ha. destruct Ha as (k & <- & _). apply lxor_pow2_neq.
+    - simpl in Ha. repeat (destruct Ha as [<-|Ha]; [vm_compute; discriminate|]). destruct Ha. }
+  destruct (hw_adopt_rejects 0 (write_header addr len) addr len (Some addr) a) as (_ & _ & _ & H & _).
+  rewrite (H eq_refl eq_refl eq_refl Hne). unfold is_einval. apply N.eqb_refl.
+Qed.
+Lemma hw_corrupted_headers_refused addr len :
+  forallb (fun h => is_einval (adopt_check 0 h addr len (Some addr) HWLOC_TOPOLOGY_ABI)) (corrupted_headers addr len) = true.
+Proof.
+  apply forallb_forall. intros h Hh.
+  destruct (hw_adopt_rejects 0 h addr len (Some addr) HWLOC_TOPOLOGY_ABI) as (_ & H & _).
+  rewrite (H eq_refl); [unfold is_einval; apply N.eqb_refl|].
+  unfold corrupted_headers in Hh. repeat (apply in_app_or in Hh; destruct Hh as [Hh|Hh]);
+    unfold flips in Hh; rewrite map_map in Hh; apply in_map_iff in Hh; destruct Hh as (k & <- & _); cbn [h_version h_length h_address h_mmap_length].
+  - left. apply lxor_pow2_neq.
+  - right; left. apply lxor_pow2_neq.
+  - right; right; left. apply lxor_pow2_neq.
+  - right; right; right. apply lxor_pow2_neq.
+Qed.
+Lemma hw_corruption_table addr len : corruption_table_ok addr len = true.
+Proof. unfold corruption_table_ok. rewrite hw_corrupted_abis_refused, hw_corrupted_headers_refused. reflexivity. Qed.
